@@ -326,7 +326,7 @@ func (b *GRPCBroker) Accept(id uint32) (net.Listener, error) {
 		}
 
 		go func() {
-			err := b.listenForKnocks(id)
+			err := b.listenForKnocks(id, p)
 			if err != nil {
 				log.Printf("[ERR]: error listening for knocks, id: %d, error: %s", id, err)
 			}
@@ -468,8 +468,11 @@ func (b *GRPCBroker) Close() error {
 	return nil
 }
 
-func (b *GRPCBroker) listenForKnocks(id uint32) error {
-	p := b.getServerStream(id)
+// listenForKnocks is given the pending entry its listener was registered
+// with: were it looked up again here, a listener that is closed before this
+// goroutine first runs would get a fresh entry whose doneCh nobody closes,
+// and the goroutine would never end.
+func (b *GRPCBroker) listenForKnocks(id uint32, p *gRPCBrokerPending) error {
 	for {
 		select {
 		case msg := <-p.ch:
